@@ -400,7 +400,10 @@ impl SyncWorld {
         }
         first.account.sign_out().await?;
         let first_root = first.root.clone();
+        let first_target = first.target.clone();
         drop(first);
+        crate::account_world::close_target(&first_target).await;
+        drop(first_target);
 
         // the other devices are copies of the first one
         for n in names.iter().skip(1) {
@@ -765,6 +768,18 @@ pub async fn run_path(
                     world.check_c02(i, &mut c02).await?;
                     if prop == "C02" || prop == "C05" {
                         for p in c02 {
+                            out.violation(format!("{p} (after step {n} HardReset {args})"), detail.clone());
+                            failed = true;
+                        }
+                    }
+                    if prop == "C20" {
+                        let mut c20 = Vec::new();
+                        {
+                            let account = world.devices[i].account.lock().await;
+                            crate::account_world::c20_check(&*account, &world.devices[i].name, &mut c20)
+                                .await?;
+                        }
+                        for p in c20 {
                             out.violation(format!("{p} (after step {n} HardReset {args})"), detail.clone());
                             failed = true;
                         }
